@@ -115,3 +115,16 @@ Print Assumptions c11_error_typed.
 Print Assumptions c11_close_flag.
 Print Assumptions c11_hint_regardless.
 Print Assumptions c11_example.
+
+(* "typed by the provider error class": of the ten library exception classes, exactly the provider error of the
+   server kind is an instance of the class designated for its init method (the class hierarchy is reflected from the
+   live interfaces package on every run: re-parenting an exception class breaks this) *)
+Example c11_only_provider_typed :
+  forallb (fun c => Bool.eqb (lib_subclass c CDataProviderError)
+                             (match c with CDataProviderError => true | _ => false end)) all_lib_classes = true /\
+  forallb (fun c => Bool.eqb (lib_subclass c CMetadataProviderError)
+                             (match c with CMetadataProviderError => true | _ => false end)) all_lib_classes = true /\
+  designated MDPI = [CDataProviderError] /\ designated MMPI = [CMetadataProviderError].
+Proof. vm_compute. repeat split; reflexivity. Qed.
+
+Print Assumptions c11_only_provider_typed.
